@@ -47,7 +47,7 @@ var c12Pairs = func() []pairCase {
 func (c12) Phases(env run.Env) []run.Phase {
 	n := 4000
 	if env.Thorough {
-		n = 150000
+		n = 6000000
 	}
 	return []run.Phase{{Name: "ordered-pairs", N: len(c12Pairs)}, {Name: "histories", N: n}, {Name: "topic-filter", N: 64}}
 }
